@@ -72,9 +72,10 @@ type Conn struct {
 	w *World
 	N int // 1-based ordinal
 
-	Out      []byte // bytes accepted from the client
-	fedLimit int    // bytes beyond this offset never reach the broker (-1 = no limit)
-	wfaults  []WFault
+	Out                                  []byte // bytes accepted from the client
+	fedLimit                             int    // bytes beyond this offset never reach the broker (-1 = no limit)
+	wfaults                              []WFault
+	parkClose, closeParked, closeRelease bool
 	// CloseErr is what the first Close returns (nil normally).
 	CloseErr error
 	wdl, rdl bool
@@ -680,6 +681,17 @@ func (c *Conn) Close() error {
 	w.mu.Lock()
 	defer w.mu.Unlock()
 	c.closeN++
+	if c.parkClose && !c.closed {
+		// a Close which takes its time (a TLS close_notify to a slow peer)
+		c.parkClose = false
+		c.closeParked = true
+		w.log(Event{Kind: EvPark, Conn: c.N, Str: "close"})
+		for !c.closeRelease && !w.closedWorld {
+			w.cond.Wait()
+		}
+		c.closeParked = false
+		w.log(Event{Kind: EvUnpark, Conn: c.N, Str: "close"})
+	}
 	if c.closed {
 		if c.TCPLike {
 			return c.closedErr("close")
@@ -768,3 +780,26 @@ func (c *Conn) SetWriteDeadline(t time.Time) error {
 
 var _ net.Conn = (*Conn)(nil)
 var _ = errors.New
+
+// ParkClose makes the next Close wait until ReleaseClose.
+func (c *Conn) ParkClose() {
+	c.w.mu.Lock()
+	c.parkClose = true
+	c.w.mu.Unlock()
+}
+
+// CloseParked tells whether a Close is waiting.
+func (c *Conn) CloseParked() bool {
+	c.w.mu.Lock()
+	defer c.w.mu.Unlock()
+	return c.closeParked
+}
+
+// ReleaseClose lets the waiting (or the next) Close proceed.
+func (c *Conn) ReleaseClose() {
+	c.w.mu.Lock()
+	c.closeRelease = true
+	c.parkClose = false
+	c.w.cond.Broadcast()
+	c.w.mu.Unlock()
+}
